@@ -54,6 +54,8 @@ CONSTANTS Conns,       \* connection ids
           AllowBad,    \* corrupt chunks / bad address in an authenticated stream
           AllowSplit,  \* address split over two chunks
           AllowRst,    \* target may reset the connection
+          AllowTClose, \* target may close completely after its half-close (further writes to it vanish, then fail)
+          AllowCRst,   \* client may reset the connection during the relay
           Timeout,     \* handshake read timeout (ticks)
           MaxNow,      \* clock bound (0: time never advances)
           DrainMode,   \* "inner": tcp.go:307 as written (drain through the decrypting reader); "raw": drain the raw conn
@@ -95,6 +97,9 @@ InitConn(h, k) ==
     cerr |-> "", terr |-> FALSE,
     cq |-> <<>>, cfin |-> FALSE, crd |-> FALSE, csock |-> "none",
     tq |-> <<>>, tfin |-> FALSE, trst |-> FALSE, tgt |-> "none", trd |-> FALSE,
+    tcl |-> "no",   \* "closed": the target closed completely (the next write to it vanishes), "broken": writes now fail
+    crst |-> FALSE, \* the client reset the connection
+
     finT |-> FALSE, finC |-> FALSE,
     cnt |-> Stat(0, 0, 0, 0) ]
 
@@ -107,7 +112,8 @@ InitOb ==
     tfinPolite |-> FALSE,     \* the target sent its FIN only after it had seen the proxy's FIN
     drain |-> "",             \* how the probe drain ended
     timeout |-> Timeout,
-    wire |-> [cs |-> 0, tr |-> 0, ts |-> 0, cr |-> 0] ]
+    afterClose |-> 0,         \* data chunks the client sent after the target had closed completely
+    wire |-> [cs |-> 0, tr |-> 0, ts |-> 0, cr |-> 0, cpl |-> 0] ]   \* cpl: client payload (plaintext) sent
 
 Init == /\ st \in [Conns -> {InitConn(h, k) : h \in HsKinds, k \in TgtKinds}]
         /\ ob = [c \in Conns |-> InitOb]
@@ -153,7 +159,7 @@ Connect(c) == /\ st[c].pc = "idle" /\ lst = "open"
               /\ Step(c, [st[c] EXCEPT !.pc = "backlog", !.csock = "open"], ob[c], "Connect", 0)
 
 ClientSend(c, tok) ==
-  /\ st[c].pc \notin {"idle", "reset"} /\ ~st[c].cfin
+  /\ st[c].pc \notin {"idle", "reset"} /\ ~st[c].cfin /\ ~st[c].crst
   /\ EnvOK(c)
   /\ Len(ob[c].csent) < MaxTok /\ tok \in NextToks(c)
   /\ LET o == ob[c] IN
@@ -161,13 +167,15 @@ ClientSend(c, tok) ==
      Step(c, IF st[c].csock = "open" THEN [st[c] EXCEPT !.cq = Append(@, tok)] ELSE st[c],
           [o EXCEPT !.csent = Append(@, tok),
                     !.wire.cs = @ + W(tok),
+                    !.wire.cpl = @ + (IF tok.k \in {"data", "addrplus"} THEN 1 ELSE 0),
+                    !.afterClose = @ + (IF tok.k = "data" /\ st[c].tcl # "no" THEN 1 ELSE 0),
                     !.lastSendAt = now,
                     !.preDoneAt = IF @ = -1 /\ tok.k = "pre" /\ Units(c) + tok.v = 2 THEN now ELSE @,
                     !.addrDoneAt = IF @ = -1 /\ tok.k \in {"addr", "addrplus", "addrrest"} THEN now ELSE @],
           "CSend", KindCode(tok.k) * 10 + tok.v)
 
 ClientFin(c) ==
-  /\ st[c].pc \notin {"idle", "reset"} /\ ~st[c].cfin
+  /\ st[c].pc \notin {"idle", "reset"} /\ ~st[c].cfin /\ ~st[c].crst
   /\ EnvOK(c)
   /\ Step(c, [st[c] EXCEPT !.cfin = TRUE], [ob[c] EXCEPT !.cfinAt = now], "CFin", 0)
 
@@ -183,6 +191,15 @@ TargetFin(c) ==
 TargetRst(c) ==
   /\ AllowRst /\ st[c].tgt = "up" /\ ~st[c].trst /\ ~st[c].tfin
   /\ Step(c, [st[c] EXCEPT !.trst = TRUE, !.tq = <<>>], ob[c], "TRst", 0)
+
+\* the target, having half-closed, closes completely: what the proxy still writes to it is lost, then refused
+TargetClose(c) ==
+  /\ AllowTClose /\ st[c].tgt = "up" /\ st[c].tfin /\ ~st[c].trst /\ st[c].tcl = "no"
+  /\ Step(c, [st[c] EXCEPT !.tcl = "closed"], ob[c], "TClose", 0)
+\* the client aborts the connection during the relay (before having half-closed)
+ClientRst(c) ==
+  /\ AllowCRst /\ st[c].tgt = "up" /\ st[c].csock = "open" /\ ~st[c].cfin /\ ~st[c].crst
+  /\ Step(c, [st[c] EXCEPT !.crst = TRUE, !.cq = <<>>], ob[c], "CRst", 0)
 
 CloseListener ==
   /\ WithServe /\ lst = "open"
@@ -306,7 +323,8 @@ Dial(c) ==
 (* relay, goroutine client -> target  tcp.go:303-315                        *)
 (* ------------------------------------------------------------------------ *)
 ToTarget(c, s, o, d, a) ==   \* tgtConn.Write of one decrypted chunk
-  IF s.trst THEN Step(c, [s EXCEPT !.cerr = "write", !.pa = "drain"], o, "C2T_WriteErr", d)
+  IF s.trst \/ s.tcl = "broken" THEN Step(c, [s EXCEPT !.cerr = "write", !.pa = "drain"], o, "C2T_WriteErr", d)
+  ELSE IF s.tcl = "closed" THEN Step(c, [s EXCEPT !.cnt.pt = @ + 1, !.tcl = "broken"], o, "C2T_Vanish", d)   \* accepted by the kernel, answered by RST
   ELSE Step(c, [s EXCEPT !.cnt.pt = @ + 1], [o EXCEPT !.tlog = Append(@, d), !.wire.tr = @ + 1], a, d)
 
 \* io.Copy(tgtConn, clientConn): one chunk.  Data coalesced with the address is still in the reader (leftover)
@@ -314,14 +332,18 @@ C2T_Left(c) ==
   /\ st[c].pa = "copy" /\ st[c].left # <<>>
   /\ ToTarget(c, [st[c] EXCEPT !.left = <<>>], ob[c], Head(st[c].left), "TRecv")
 C2T_Copy(c) ==
-  /\ st[c].pa = "copy" /\ st[c].left = <<>> /\ st[c].cq # <<>>
+  /\ st[c].pa = "copy" /\ st[c].left = <<>> /\ st[c].cq # <<>> /\ ~st[c].crst
   /\ LET t == Head(st[c].cq)
          s == [st[c] EXCEPT !.cq = Tail(@), !.cnt.cp = @ + 1] IN
      IF t.k = "data" THEN ToTarget(c, s, ob[c], t.v, "TRecv")
      ELSE Step(c, [s EXCEPT !.cerr = "cipher", !.pa = "drain"], ob[c], "C2T_Err", 0)
 C2T_Eof(c) ==
-  /\ st[c].pa = "copy" /\ st[c].left = <<>> /\ st[c].cq = <<>> /\ st[c].cfin
+  /\ st[c].pa = "copy" /\ st[c].left = <<>> /\ st[c].cq = <<>> /\ st[c].cfin /\ ~st[c].crst
   /\ Step(c, [st[c] EXCEPT !.pa = "closerd"], ob[c], "C2T_Eof", 0)
+\* the client reset the connection: the read fails (ECONNRESET)
+C2T_ReadErr(c) ==
+  /\ st[c].pa = "copy" /\ st[c].left = <<>> /\ st[c].crst
+  /\ Step(c, [st[c] EXCEPT !.cerr = "read", !.pa = "drain"], ob[c], "C2T_ReadErr", 0)
 \* :305-308 "Drain to prevent a close in the case of a cipher error": io.Copy(io.Discard, clientConn) where clientConn
 \* is the DECRYPTING connection.  After a cipher error the next 2+tag bytes fail again at once.
 DrainTake(c) ==
@@ -331,7 +353,7 @@ DrainTake(c) ==
          goes == DrainMode = "raw" \/ (st[c].cerr = "write" /\ t.k = "data") IN
      Step(c, IF goes THEN s ELSE [s EXCEPT !.pa = "closerd"], ob[c], "Drain", 0)
 DrainEof(c) ==
-  /\ st[c].pa = "drain" /\ st[c].cq = <<>> /\ st[c].cfin
+  /\ st[c].pa = "drain" /\ st[c].cq = <<>> /\ (st[c].cfin \/ st[c].crst)
   /\ Step(c, [st[c] EXCEPT !.pa = "closerd"], ob[c], "DrainEof", 0)
 \* :309
 CloseReadClient(c) ==
@@ -341,13 +363,13 @@ CloseReadClient(c) ==
 FinToTarget(c) ==
   /\ st[c].pa = "fintarget"
   /\ Step(c, [st[c] EXCEPT !.finT = TRUE, !.pa = "send"],
-          IF st[c].trst THEN ob[c] ELSE [ob[c] EXCEPT !.tlog = Append(@, 0)], "TSawFin", 0)
+          IF st[c].trst \/ st[c].tcl # "no" THEN ob[c] ELSE [ob[c] EXCEPT !.tlog = Append(@, 0)], "TSawFin", 0)
 
 (* ------------------------------------------------------------------------ *)
 (* relay, handler goroutine target -> client  tcp.go:316-328                *)
 (* ------------------------------------------------------------------------ *)
 T2C_Copy(c) ==
-  /\ st[c].pc = "t2c" /\ ~st[c].trst /\ st[c].tq # <<>>
+  /\ st[c].pc = "t2c" /\ ~st[c].trst /\ st[c].tq # <<>> /\ ~st[c].crst
   /\ LET d == Head(st[c].tq) IN
      Step(c, [st[c] EXCEPT !.tq = Tail(@), !.cnt.tp = @ + 1, !.cnt.pc = @ + 1],
           [ob[c] EXCEPT !.clog = Append(@, d), !.wire.cr = @ + 1], "CRecv", d)
@@ -357,10 +379,15 @@ T2C_Eof(c) ==
 T2C_Err(c) ==
   /\ st[c].pc = "t2c" /\ st[c].trst
   /\ Step(c, [st[c] EXCEPT !.terr = TRUE, !.pc = "finclient"], ob[c], "T2C_Err", 0)
+\* the client is gone: the write to it fails
+T2C_WriteErr(c) ==
+  /\ st[c].pc = "t2c" /\ ~st[c].trst /\ st[c].tq # <<>> /\ st[c].crst
+  /\ Step(c, [st[c] EXCEPT !.terr = TRUE, !.pc = "finclient"], ob[c], "T2C_WriteErr", 0)
 \* :318 clientConn.CloseWrite()
 FinToClient(c) ==
   /\ st[c].pc = "finclient"
-  /\ Step(c, [st[c] EXCEPT !.finC = TRUE, !.pc = "closerdT"], [ob[c] EXCEPT !.clog = Append(@, 0)], "CSawFin", 0)
+  /\ Step(c, [st[c] EXCEPT !.finC = TRUE, !.pc = "closerdT"],
+          IF st[c].crst THEN ob[c] ELSE [ob[c] EXCEPT !.clog = Append(@, 0)], "CSawFin", 0)
 \* :319
 CloseReadTarget(c) ==
   /\ st[c].pc = "closerdT"
@@ -388,7 +415,7 @@ Close(c) ==
   /\ LET kind == IF st[c].cq # <<>> THEN -1 ELSE 0 IN
      Step(c, [st[c] EXCEPT !.pc = "exit", !.csock = "closed", !.cq = <<>>],
           [ob[c] EXCEPT !.closeAt = now,
-                        !.clog = IF kind = 0 /\ st[c].finC THEN @ ELSE Append(@, kind)], "CClose", kind)
+                        !.clog = IF (kind = 0 /\ st[c].finC) \/ st[c].crst THEN @ ELSE Append(@, kind)], "CClose", kind)
 \* :248-249 deferred clientConn.Close(), running.Done()
 HandlerDone(c) ==
   /\ st[c].pc = "exit"
@@ -409,8 +436,8 @@ MainBlocked(c) ==
 AuxBlocked(c) ==
   LET s == st[c] IN
   CASE s.pa \in {"none", "done", "send"} -> TRUE
-    [] s.pa = "copy" -> s.left = <<>> /\ s.cq = <<>> /\ ~s.cfin
-    [] s.pa = "drain" -> s.cq = <<>> /\ ~s.cfin
+    [] s.pa = "copy" -> s.left = <<>> /\ s.cq = <<>> /\ ~s.cfin /\ ~s.crst
+    [] s.pa = "drain" -> s.cq = <<>> /\ ~s.cfin /\ ~s.crst
     [] OTHER -> FALSE
 ServeBlocked == (srv = "accept" /\ lst = "open") \/ (srv = "wait" /\ Running # {}) \/ srv = "ret"
 Quiet == ServeBlocked /\ \A c \in Conns : MainBlocked(c) /\ AuxBlocked(c)
@@ -420,14 +447,14 @@ Tick == /\ now < MaxNow /\ Quiet
         /\ UNCHANGED <<st, ob, lst, srv>>
 
 (* ------------------------------------------------------------------------ *)
-EnvC(c) == \/ Connect(c) \/ ClientFin(c) \/ TargetSend(c) \/ TargetFin(c) \/ TargetRst(c)
+EnvC(c) == \/ Connect(c) \/ ClientFin(c) \/ TargetSend(c) \/ TargetFin(c) \/ TargetRst(c) \/ TargetClose(c) \/ ClientRst(c)
            \/ \E tok \in NextToks(c) : ClientSend(c, tok)
 MainC(c) == \/ Accept(c) \/ Start(c) \/ Read50Take(c) \/ Read50Fail(c) \/ Auth(c) \/ AddAuthenticated(c)
             \/ AbsorbTake(c) \/ AbsorbEnd(c) \/ AddProbe(c)
             \/ ReadAddrTake(c) \/ ReadAddrFail(c) \/ ClearDeadline(c) \/ DrainRawTake(c) \/ DrainRawEof(c) \/ Dial(c)
-            \/ T2C_Copy(c) \/ T2C_Eof(c) \/ T2C_Err(c) \/ FinToClient(c) \/ CloseReadTarget(c) \/ Join(c)
+            \/ T2C_Copy(c) \/ T2C_Eof(c) \/ T2C_Err(c) \/ T2C_WriteErr(c) \/ FinToClient(c) \/ CloseReadTarget(c) \/ Join(c)
             \/ AddClosed(c) \/ Close(c) \/ HandlerDone(c)
-AuxC(c) == \/ C2T_Left(c) \/ C2T_Copy(c) \/ C2T_Eof(c) \/ DrainTake(c) \/ DrainEof(c)
+AuxC(c) == \/ C2T_Left(c) \/ C2T_Copy(c) \/ C2T_Eof(c) \/ C2T_ReadErr(c) \/ DrainTake(c) \/ DrainEof(c)
            \/ CloseReadClient(c) \/ FinToTarget(c)
 Serve == ServeBreak \/ ServeCancel \/ ServeReturn
 
@@ -453,7 +480,7 @@ LiveSpecProxyOnly == Spec /\ \A c \in Conns : WF_vars(MainC(c)) /\ WF_vars(AuxC(
 (* ======================================================================== *)
 (* PROPERTY LAYER                                                           *)
 (* Every predicate P(s, o) speaks about ONE connection and reads only       *)
-(*   s: what the peers did   (hs, tk, cfin, tfin, trst)                     *)
+(*   s: what the peers did   (hs, tk, cfin, tfin, trst, tcl, crst)          *)
 (*   o: what was sent and what the observers saw (the fields of InitOb)     *)
 (* so that TLC can evaluate the same text on the model (s = st[c],          *)
 (* o = ob[c], every reachable state) and on records of the real code        *)
@@ -479,7 +506,7 @@ AddrSent(o)    == o.addrDoneAt # -1 /\ o.addrDoneAt < DeadlineOf(o) - SlackSched
 AddrMissing(o) == (o.addrDoneAt = -1 /\ Reported(o)) \/ (o.addrDoneAt # -1 /\ o.addrDoneAt > DeadlineOf(o) + SlackSched)
 \* a connection on which nothing went wrong: valid fresh opener and valid address in time, reachable target, no
 \* corrupt chunk, no reset
-Clean(s, o) == MustAuth(s, o) /\ AddrSent(o) /\ s.tk = "ok" /\ ~OHasBad(o) /\ ~s.trst /\ ~o.cancelled
+Clean(s, o) == MustAuth(s, o) /\ AddrSent(o) /\ s.tk = "ok" /\ ~OHasBad(o) /\ ~s.trst /\ ~o.cancelled /\ s.tcl = "no" /\ ~s.crst
 
 (* ---- C02 --------------------------------------------------------------- *)
 \* no loss, duplication, reordering, invention - on every connection, clean or not
@@ -520,7 +547,7 @@ C06_NormalClose(s, o) ==
 \* after authentication an invalid stream is drained: while the client keeps its side open the proxy neither closes,
 \* nor half-closes towards the target, nor (unless the target ended the stream on its own) towards the client
 C06_DrainHolds(s, o) ==
-  MustAuth(s, o) /\ OHasBad(o) /\ ~s.cfin /\ s.tk = "ok" /\ ~s.trst /\ ~o.cancelled =>
+  MustAuth(s, o) /\ OHasBad(o) /\ ~s.cfin /\ s.tk = "ok" /\ ~s.trst /\ ~o.cancelled /\ ~s.crst =>
      /\ ~Reported(o)
      /\ ~Has(o.tlog, 0)
      /\ ~Has(o.clog, -1)
@@ -560,19 +587,31 @@ ExpectedStatus(s, o) ==
   ELSE IF s.tk = "deny" THEN {"ERR_ADDRESS"}
   ELSE IF s.tk = "refuse" THEN {"ERR_CONNECT"}
   ELSE IF o.cancelled THEN {"ERR_CONNECT", "ERR_RELAY_CLIENT", "ERR_RELAY_TARGET", "OK"}
-  ELSE IF OHasBad(o) THEN {"ERR_RELAY_CLIENT"}
+  ELSE IF OHasBad(o) \/ s.crst THEN {"ERR_RELAY_CLIENT"}
+  \* the target closed completely: the first chunk written after that is lost silently, the second write fails
+  ELSE IF s.tcl # "no" THEN (IF o.afterClose >= 2 THEN {"ERR_RELAY_CLIENT"} ELSE {"OK", "ERR_RELAY_CLIENT"})
   ELSE IF s.trst THEN {"ERR_RELAY_CLIENT", "ERR_RELAY_TARGET"}
   ELSE {"OK"}
 C15_Status(s, o) == Reported(o) => ClosedRec(o).s \in ExpectedStatus(s, o)
 C15_OkIffComplete(s, o) == Reported(o) /\ Clean(s, o) => ClosedRec(o).s = "OK"
+\* ... and OK only for complete success: both peers ended their streams in an orderly way, the proxy read everything
+\* either of them sent and wrote all of it to the other side (and, unless the target had gone away, the target got it
+\* all, with the end-of-stream); no socket error on either direction may be reported as OK
+C15_OkMeansComplete(s, o) ==
+  Reported(o) /\ ClosedRec(o).s = "OK" =>
+     LET n == ClosedRec(o).n  w == o.wire IN
+     /\ s.cfin /\ s.tfin /\ ~s.crst /\ ~s.trst
+     /\ n[1] = w.cs /\ n[2] = w.cpl /\ n[3] = w.ts /\ n[4] = w.cr
+     /\ Has(o.clog, 0) /\ DataOf(o.clog) = Ids(o.tsent)
+     /\ (s.tcl = "no" => w.tr = w.cpl /\ Has(o.tlog, 0) /\ DataOf(o.tlog) = Payload(o))
 C15_Counters(s, o) ==
   Reported(o) =>
      LET n == ClosedRec(o).n  w == o.wire IN
      \* received-from counters never exceed what the peer wrote; sent-to counters never exceed what the peer received,
      \* unless that peer reset the connection (bytes accepted by the kernel may be dropped unread)
      /\ n[1] <= w.cs /\ n[3] <= w.ts
-     /\ (~s.trst => n[2] <= w.tr) /\ (~Has(o.clog, -1) => n[4] <= w.cr)
-     /\ (ClosedRec(o).s = "OK" => n[1] = w.cs /\ n[2] = w.tr /\ n[3] = w.ts /\ n[4] = w.cr)
+     /\ (~s.trst /\ s.tcl = "no" => n[2] <= w.tr) /\ (~Has(o.clog, -1) /\ ~s.crst => n[4] <= w.cr)
+     /\ (ClosedRec(o).s = "OK" => n[1] = w.cs /\ (s.tcl = "no" => n[2] = w.tr) /\ n[3] = w.ts /\ n[4] = w.cr)
 
 (* ---- C18 (per connection) ------------------------------------------------ *)
 \* when everything has come to rest, the handler of every accepted connection has returned
@@ -583,7 +622,8 @@ C18_HandlerReturned(s, o) == o.acceptAt # -1 => o.handlerDone
 PropsAny == {"C02_TargetPrefix", "C02_ClientPrefix", "C02_Propagates", "C02_FinToTargetAfterAll", "C02_FinToClientAfterAll",
              "C06_Silent", "C06_NoEarlyClose", "C06_DrainHolds", "C15_Language", "C15_AuthOnlyIfAuthenticated"}
 PropsFinal == PropsAny \cup {"C18_HandlerReturned", "C15_ReportedOnce", "C02_CompleteAtClose", "C06_CloseNotEarly", "C06_CloseNotLate", "C06_NormalClose",
-                             "C15_ProbeIffFailed", "C15_ProbeBytes", "C15_Status", "C15_OkIffComplete", "C15_Counters"}
+                             "C15_ProbeIffFailed", "C15_ProbeBytes", "C15_Status", "C15_OkIffComplete", "C15_OkMeansComplete",
+                             "C15_Counters"}
 Holds(p, s, o) ==
   CASE p = "C02_TargetPrefix" -> C02_TargetPrefix(s, o)
     [] p = "C02_ClientPrefix" -> C02_ClientPrefix(s, o)
@@ -605,6 +645,7 @@ Holds(p, s, o) ==
     [] p = "C15_ProbeBytes" -> C15_ProbeBytes(s, o)
     [] p = "C15_Status" -> C15_Status(s, o)
     [] p = "C15_OkIffComplete" -> C15_OkIffComplete(s, o)
+    [] p = "C15_OkMeansComplete" -> C15_OkMeansComplete(s, o)
     [] p = "C15_Counters" -> C15_Counters(s, o)
 Failing(ps, s, o) == {p \in ps : ~Holds(p, s, o)}
 
@@ -617,11 +658,11 @@ Inv_C06 == \A c \in Conns : Failing({"C06_Silent", "C06_NoEarlyClose", "C06_Clos
                                      "C06_NormalClose"}, st[c], ob[c]) = {}
 Inv_C06Drain == \A c \in Conns : C06_DrainHolds(st[c], ob[c])
 Inv_C15 == \A c \in Conns : Failing({"C15_ReportedOnce", "C15_Language", "C15_AuthOnlyIfAuthenticated", "C15_ProbeIffFailed", "C15_ProbeBytes",
-                                     "C15_Status", "C15_OkIffComplete", "C15_Counters"}, st[c], ob[c]) = {}
+                                     "C15_Status", "C15_OkIffComplete", "C15_OkMeansComplete", "C15_Counters"}, st[c], ob[c]) = {}
 \* model only: the counters are advanced by the very actions that move the bytes
 C15_CountersTrackDelivery ==
-  \A c \in Conns : st[c].cnt.pt = Len(DataOf(ob[c].tlog)) /\ st[c].cnt.pc = Len(DataOf(ob[c].clog))
-                   /\ st[c].cnt.pt = ob[c].wire.tr /\ st[c].cnt.pc = ob[c].wire.cr
+  \A c \in Conns : /\ st[c].cnt.pc = Len(DataOf(ob[c].clog)) /\ st[c].cnt.pc = ob[c].wire.cr
+                   /\ (st[c].tcl = "no" => st[c].cnt.pt = Len(DataOf(ob[c].tlog)) /\ st[c].cnt.pt = ob[c].wire.tr)
 \* model only - independence: the end of one direction does not stop the other
 C02_Independent ==
   \A c \in Conns : Clean(st[c], ob[c]) /\ st[c].tgt = "up" =>
